@@ -642,9 +642,6 @@ def rejection_site(prog, detail):
 
 
 KNOWN_CLASS_UNIT = "bvm-unit-value-used-as-number"
-# GetUpValue of an OPEN upvalue whose destination lies above the stack top (or several words at the top): the source slice
-# points into the stack that set_vec_range is about to grow (Vec::resize / push may reallocate): use-after-free read
-KNOWN_CLASS_ALIAS = "bvm-open-upvalue-read-grows-the-stack"
 
 
 def unit_operand_class(prog, detail):
@@ -664,16 +661,6 @@ def unit_operand_class(prog, detail):
         if c[0] in ("Call", "CallExtFun"):
             return KNOWN_CLASS_UNIT if (c[3] == 0 and c[1] in srcs) else None
     return None
-
-
-def alias_rejection(prog, detail):
-    """the first failing check is a GetUpValue with a valid upvalue index: the only other reason `xflow` has to reject it is
-    that the write could grow the stack before the source (a slice into the stack when the cell is open) has been read"""
-    site = rejection_site(prog, detail)
-    if not site or not site[2] or site[2][0] != "GetUpValue":
-        return False
-    f = prog["funs"][site[0]]
-    return site[2][2] < len(f.get("up", []))
 
 
 def rejection_class(prog, detail):
@@ -831,9 +818,8 @@ def run_part(ck, quick=True):
            "verifier_covers_functions": 0, "out_of_fuel": 0, "witnesses_reproduced": 0,
            "with_fuel_bound": 0, "without_fuel_bound": 0, "max_fuel_bound": 0, "rejected_known_class_unit_operand": 0,
            "dump_garbled_in_shared_process": 0, "closure_programs": 0, "closure_programs_agree": 0,
-           "stack_alias_hazard": 0, "stack_alias_hazard_vm_differs": 0, "inside_model_shipped": 0, "outside_model": 0,
-           "outside_model_by": {}, "accepted_closure_programs": 0, "accepted_dynamic_stop": {},
-           "rejected_known_class_open_upvalue": 0}
+           "inside_model_shipped": 0, "outside_model": 0,
+           "outside_model_by": {}, "accepted_closure_programs": 0, "accepted_dynamic_stop": {}}
     lines, idx = [], []
     for i, (rq, r) in enumerate(zip(reqs, res)):
         if r is None or "crash" in r:
@@ -921,18 +907,10 @@ def run_part(ck, quick=True):
                 cov["outside_model_by"][o] = cov["outside_model_by"].get(o, 0) + 1
         else:
             cov["inside_model_shipped"] += shipped
-        if isinstance(c, tuple) and c[1].endswith("UnsupStackAlias"):
-            # the model stops where the behaviour of the real VM is undefined (GetUpValue of an open upvalue whose write
-            # grows the stack: use-after-free read in set_vec_range); known finding, reported under its id when listed
-            cov["stack_alias_hazard"] += 1
-            if rq["kind"].startswith("corpus:finding"):
-                cov["witnesses_reproduced"] += 1
-            fid = next((f for f in known.values() if f.get("cls") == KNOWN_CLASS_ALIAS), None)
-            if fid:
-                ck.known(fid, "bytecode VM: %s reads an open upvalue into registers above the stack top: %s" % (rq["kind"], rq["src"].replace("\n", " ")[:120]))
         if rq["kind"].startswith("corpus:fixed_"):
-            # a repaired defect (fixed_f67: indexing an empty array re-executed the instruction: panic or hang): the real VM
-            # and the model both play the program to the end
+            # a repaired defect (fixed_f67: indexing an empty array re-executed the instruction: panic or hang; fixed_f66: an open
+            # upvalue was read through a slice into a stack being reallocated): the real VM and the model both play the program
+            # to the end and agree
             bad_vm = "panic" in (r.get("main") or {}) or any("panic" in sm for sm in r.get("samples", [])) or len(r.get("samples", [])) < rq["n"]
             bad_model = any(o and o["kind"] != "ret" for o in a.get("samples", []) + [a.get("main")])
             if bad_vm or bad_model or c is not None:
@@ -1012,15 +990,6 @@ def run_part(ck, quick=True):
                     report("bytecode VM: the extracted model runs out of the fuel bound that term_ok certifies (C03_bvm_fuel): extraction or driver broken", i, a)
             else:
                 cov["without_fuel_bound"] += 1
-            continue
-        if alias_rejection(prog, a.get("detail", "")):
-            cov["rejected_known_class_open_upvalue"] += 1
-            if rq["kind"].startswith("corpus:finding") and not (isinstance(c, tuple) and c[1].endswith("UnsupStackAlias")):
-                cov["witnesses_reproduced"] += 1
-            fid = next((f for f in known.values() if f.get("cls") == KNOWN_CLASS_ALIAS), None)
-            if fid:
-                ck.known(fid, "bytecode verifier: %s has a GetUpValue whose write may grow the stack before the open cell is read: %s"
-                         % (rq["kind"], rq["src"].replace("\n", " ")[:120]))
             continue
         cls = rejection_class(prog, a.get("detail", "")) or unit_operand_class(prog, a.get("detail", ""))
         if cls == KNOWN_CLASS_UNIT:
